@@ -159,6 +159,10 @@ def _case(draw):
             fam["masters"].append({"k": 3, "loc": {"Weight": 1000, "Slant": -10}})
         fam["sparse"]["loc"]["Slant"] = 0
     case = {"mode": mode, "module": module, "fam": fam, "skip": skip, "flavour": draw(st.sampled_from(["ttf", "ttf", "cff2"]))}
+    if draw(st.sampled_from([True, False, False])):
+        # a second sparse master elsewhere on the weight axis: the composites have to be interpolated at more than one location
+        w2 = draw(st.sampled_from([w for w in (200, 400, 600, 800) if w != fam["sparse"]["loc"]["Weight"]]))
+        fam["more_sparse"] = [{"k": 6, "loc": dict(fam["sparse"]["loc"], Weight=w2), "names": draw(st.sampled_from([["inner"], ["inner"], ["inner", "plain"]]))}]
     if draw(st.integers(0, 4)) == 0:
         case["lists_in_ufos_only"] = True
     if len(fam["axes"]) > 1 and draw(st.booleans()):
@@ -167,6 +171,8 @@ def _case(draw):
         for m in fam["masters"]:
             m["loc"]["Slant"] = 20 if m["loc"]["Slant"] == 0 else 0
         fam["sparse"]["loc"]["Slant"] = 20
+        for m_ in fam.get("more_sparse", []):
+            m_["loc"]["Slant"] = 20
         fam["partial_locations"] = True
     if draw(st.booleans()):
         case["via_interpolatable"] = True   # compileInterpolatable*FromDS, then varLib.build on its result (the two-step route)
@@ -507,7 +513,9 @@ def run_variable_sparse(case, ctx):
     else:
         common_absence(full, sub, skip)
     two = len(fam["axes"]) > 1
-    locs = [{"wght": w} for w in sorted({0, 1000, fam["sparse"]["loc"]["Weight"], 150, 850})]
+    locs = [{"wght": w} for w in sorted({0, 1000, fam["sparse"]["loc"]["Weight"], 150, 850} | {m_["loc"]["Weight"] for m_ in fam.get("more_sparse", [])})]
+    if fam.get("more_sparse"):
+        ctx.label("two-sparse-masters")
     if two:
         locs = [dict(l, slnt=0) for l in locs] + [{"wght": fam["sparse"]["loc"]["Weight"], "slnt": -5}, {"wght": 0, "slnt": -10}, {"wght": 1000, "slnt": -10}]
         ctx.label("sparse-master-at-zero-coordinate-of-second-axis")
